@@ -35,6 +35,21 @@ Definition alias_witnesses : list expr :=
    ERngL (EUn 0 (par_atom 97));
    ECall (idn 102) [ERng (EUn 0 (par_atom 97)) (idn 98)]].
 
+(* lambdas at the positions repaired by commit 95d15ad:
+   case [a => (func y -> y)]   func x -> (func y -> x + y)   func k:(g y) -> k   func k:(func y -> y) w:(x = a) -> k
+   {f = func x y -> x + y}   (func x -> x) a   a + (func x -> x)   [func x -> f x y]   (al = func x -> x) + a *)
+Definition lam (ps : list N) (b : expr) : expr := EFunc (map (fun c => [c]) ps) [] b.
+Definition lambda_witnesses : list expr :=
+  [EGroup GCase [idn 97; lam [121] (idn 121)];
+   lam [120] (lam [121] (EBin 5 (idn 120) (idn 121)));
+   EFunc [] [ENamed [107] (ECall (idn 103) [idn 121])] (idn 107);
+   EFunc [] [ENamed [107] (lam [121] (idn 121)); ENamed [119] (EAlias [120] (idn 97))] (idn 107);
+   EGroup GTup [EAlias [102] (lam [120; 121] (EBin 5 (idn 120) (idn 121)))];
+   ECall (lam [120] (idn 120)) [idn 97];
+   EBin 5 (idn 97) (lam [120] (idn 120));
+   EGroup GArr [lam [120] (ECall (idn 102) [idn 120; idn 121])];
+   EBin 5 (EAlias [97; 108] (lam [120] (idn 120))) (idn 97)].
+
 Lemma float_refuted : exists f, flt_wf f = true /\ lex_number (fmt_float f) <> Some (NFloat f, []).
 Proof. exists (FFin 1 0). split; [reflexivity|]. vm_compute. discriminate. Qed.
 
